@@ -181,3 +181,164 @@ def shift_cases(draw):
     case["batch"] = draw(st.one_of(st.none(), st.integers(1, n)))
     case["mode"] = draw(st.sampled_from(["bilinear", "bilinear", "bilinear", "nearest", "bicubic"]))
     return case
+
+
+# ------------------------------------------------------------------------------------------------
+# histories on ONE model instance (data replaced through the public setters between measurements)
+# ------------------------------------------------------------------------------------------------
+@st.composite
+def pattern_desc(draw, scan, det):
+    """One data version: everything make_patterns needs besides scan/det."""
+    pattern = draw(st.sampled_from(PATTERNS))
+    d = {"pattern": pattern, "seed": draw(SEEDS)}
+    if pattern == "counts":
+        d["dtype"] = draw(st.sampled_from(["uint16", "int32", "float32", "float64"]))
+    else:
+        d["dtype"] = draw(st.sampled_from(["float32", "float64"]))
+        d["scale"] = draw(st.sampled_from([1.0, 1e-3, 1e4]))
+    if pattern == "delta":
+        const = draw(st.booleans())
+        d["plane_r"] = draw(_int_plane_coef(det[0], scan[0], scan[1], const))
+        d["plane_c"] = draw(_int_plane_coef(det[1], scan[0], scan[1], const))
+        d["amp"] = draw(st.sampled_from([1.0, 4.0, 37.5, 1000.0]))
+        d["bg"] = draw(st.sampled_from([0.001, 0.03125, 0.5, 1.0]))
+    return d
+
+
+def version_array(case, k):
+    d = dict(case["data"][k])
+    d["scan"], d["det"] = case["scan"], case["det"]
+    return make_patterns(d)
+
+
+def _mask_desc(draw):
+    mtype = draw(st.sampled_from(["none", "binary", "none", "soft"]))
+    if mtype == "none":
+        return None
+    return {"type": mtype, "seed": draw(SEEDS), "keep": draw(st.sampled_from([0.9, 0.5, 0.1]))}
+
+
+@st.composite
+def _origin_op(draw, name, scan, det, nver):
+    n = scan[0] * scan[1]
+    H, W = det
+    if name == "measure":
+        return {"op": name, "batch": draw(st.one_of(st.none(), st.integers(1, n)))}
+    if name == "set_tensor":
+        return {"op": name, "version": draw(st.integers(0, nver - 1)), "as": draw(st.sampled_from(["torch", "torch", "numpy"]))}
+    if name == "fit":
+        return {"op": name, "method": draw(st.sampled_from(["plane", "constant"]))}
+    if name == "set_measured":
+        method = draw(st.sampled_from(["plane", "constant"]))
+        op = {"op": name, "method": method}
+        for key, L in (("surf_r", H), ("surf_c", W)):
+            if method == "constant":
+                op[key] = [draw(_FRAC) * (L - 1), 0.0, 0.0]
+            else:
+                op[key] = real_plane_coef(L, scan[0], scan[1], draw(_UNIT), draw(_UNIT), draw(_FRAC))
+        return op
+    if name == "set_fitted":
+        pair = st.tuples(st.integers(0, H - 1), st.integers(0, W - 1)).map(list)
+        if draw(st.integers(0, 3)) == 0:
+            return {"op": name, "origins": [draw(pair)]}
+        return {"op": name, "origins": draw(st.lists(pair, min_size=n, max_size=n))}
+    if name == "shift":
+        return {
+            "op": name,
+            "batch": draw(st.one_of(st.none(), st.integers(1, n))),
+            "mode": draw(st.sampled_from(["bilinear", "bilinear", "nearest", "bicubic"])),
+        }
+    return {"op": name}  # set_device, set_shifted
+
+
+_ORIGIN_OPS = ["measure", "measure", "set_tensor", "set_tensor", "fit", "fit", "set_measured", "set_fitted", "set_fitted", "shift", "shift", "set_device", "set_shifted"]
+_ORIGIN_FILL = [o for o in _ORIGIN_OPS if o not in ("measure", "set_tensor")]
+
+
+@st.composite
+def origin_history_cases(draw):
+    """[free ops] measure [ops] set_tensor [ops] measure [free ops]: the re-measurement of replaced
+    data is in every history; everything around it is drawn."""
+    scan, det = draw(geometry())
+    nver = draw(st.integers(2, 3))
+    case = {"kind": "ohist", "scan": scan, "det": det}
+    case["data"] = [draw(pattern_desc(scan, det)) for _ in range(nver)]
+    case["initial"] = draw(st.integers(0, nver - 1))
+
+    def ops(pool, lo, hi):
+        names = draw(st.lists(st.sampled_from(pool), min_size=lo, max_size=hi))
+        return [draw(_origin_op(nm, scan, det, nver)) for nm in names]
+
+    steps = ops(_ORIGIN_OPS, 0, 3)
+    steps.append(draw(_origin_op("measure", scan, det, nver)))
+    steps += ops(_ORIGIN_FILL, 0, 2)
+    steps.append(draw(_origin_op("set_tensor", scan, det, nver)))
+    steps += ops(_ORIGIN_FILL, 0, 2)
+    steps.append(draw(_origin_op("measure", scan, det, nver)))
+    steps += ops(_ORIGIN_OPS, 0, 4)
+    case["steps"] = steps
+    return case
+
+
+@st.composite
+def dataset_history_cases(draw):
+    scan, det = draw(geometry())
+    nver = draw(st.integers(2, 3))
+    case = {"kind": "dhist", "scan": scan, "det": det}
+    case["data"] = [draw(pattern_desc(scan, det)) for _ in range(nver)]
+    case["initial"] = draw(st.integers(0, nver - 1))
+    steps = []
+    for nm in draw(st.lists(st.sampled_from(["com", "com", "com", "preprocess", "set_intensities", "set_intensities", "set_com"]), min_size=2, max_size=6)):
+        if nm == "com":
+            steps.append(
+                {
+                    "op": nm,
+                    "src": draw(st.one_of(st.just("attr"), st.integers(0, nver - 1))),
+                    "vectorized": draw(st.booleans()),
+                    "fit": draw(st.sampled_from(["plane", "constant"])),
+                    "mask": _mask_desc(draw),
+                }
+            )
+        elif nm == "preprocess":
+            steps.append({"op": nm, "vectorized": draw(st.booleans()), "fit": draw(st.sampled_from(["plane", "constant"]))})
+        elif nm == "set_intensities":
+            steps.append({"op": nm, "version": draw(st.integers(0, nver - 1))})
+        else:
+            steps.append({"op": nm})
+    # every history ends by measuring whatever is stored now, through one of the two entry points
+    steps.append({"op": "set_intensities", "version": draw(st.integers(0, nver - 1))})
+    if draw(st.booleans()):
+        steps.append({"op": "preprocess", "vectorized": draw(st.booleans()), "fit": draw(st.sampled_from(["plane", "constant"]))})
+    else:
+        steps.append({"op": "com", "src": "attr", "vectorized": draw(st.booleans()), "fit": draw(st.sampled_from(["plane", "constant"])), "mask": _mask_desc(draw)})
+    case["steps"] = steps
+    return case
+
+
+# ------------------------------------------------------------------------------------------------
+# shift with one enumerated (large) detector side
+# ------------------------------------------------------------------------------------------------
+@st.composite
+def side_shift_cases(draw, side, mode):
+    """A `shift` case whose detector has `side` pixels along a drawn axis (the other axis is small),
+    a 1x2 or 2x2 scan, and origins over the full range of the long axis; the first pattern's origin
+    along that axis is one of side-1, 1, side//2 (never 0)."""
+    axis = draw(st.integers(0, 1))
+    other = draw(st.integers(2, 6))
+    det = [side, other] if axis == 0 else [other, side]
+    scan = draw(st.sampled_from([[1, 2], [2, 2]]))
+    n = scan[0] * scan[1]
+    case = {"kind": "shift", "scan": scan, "det": det, "seed": draw(SEEDS), "pattern": "uniform", "dtype": "float32"}
+    origins = []
+    for k in range(n):
+        if k == 0:
+            long = draw(st.sampled_from([side - 1, 1, side // 2]))
+        else:
+            long = draw(st.one_of(st.sampled_from([side - 1, 1, side // 2, 0]), st.integers(0, side - 1)))
+        short = draw(st.integers(0, other - 1))
+        origins.append([long, short] if axis == 0 else [short, long])
+    case["origins"] = origins
+    case["batch"] = draw(st.one_of(st.none(), st.integers(1, n)))
+    case["mode"] = mode
+    case["enumerated_side"] = side
+    return case
